@@ -16,9 +16,8 @@ ok" — for
 
 The field codecs of these PDUs are C03's subject; here only what feeds the indicator is modelled.
 Two parts of the real pipeline are *inputs* of this model and are supplied by the harness from the
-real code: for the data header the re-serialised data bits `as_bits()[:-16]` of the parsed object (the
-constructor computes its check over them, not over the received bits), for HRNP whether the HDAP
-stage (`HDAP.from_bytes`, `len`, `as_bytes` of the payload) raised.
+real code: for the data header whether the field decoder (`fields_from_bits`, C03) raised, for HRNP
+whether the HDAP stage (`HDAP.from_bytes`, `len`, `as_bytes` of the payload, C12) raised.
 Core Lean only.
 -/
 
@@ -161,16 +160,22 @@ def slcInit (pl : SlcPayload) (crc : Bits) : Except IErr SlcObj := do
     let ok ← ofCrc (crc8Check false (sl o.enc 0 28) (bitsToNat (sl o.enc 28 36).reverse))
     pure { o with ok := ok }
 
-/-- `ShortLinkControl.from_bits` -/
+/-- `ShortLinkControl.from_bits`: the object is built from the parsed fields; when the received CRC
+field is non-zero the verdict is then taken over the bits that were received -/
 def slcDec (bits : Bits) : Except IErr SlcObj := do
   if bits.length < 36 then throw .assertionError
   let slco ← enumOf slcosGraph (bitsToNat (sl bits 0 4))
-  if slco = slcoNull then slcInit .null (sl bits 28 36)
-  else if slco = slcoActivity then
-    let t1 ← enumOf activityIdGraph (bitsToNat (sl bits 4 8))
-    let t2 ← enumOf activityIdGraph (bitsToNat (sl bits 8 12))
-    slcInit (.activity t1 t2 (sl bits 12 20) (sl bits 20 28)) (sl bits 28 36)
-  else throw .keyError
+  let o ←
+    if slco = slcoNull then slcInit .null (sl bits 28 36)
+    else if slco = slcoActivity then do
+      let t1 ← enumOf activityIdGraph (bitsToNat (sl bits 4 8))
+      let t2 ← enumOf activityIdGraph (bitsToNat (sl bits 8 12))
+      slcInit (.activity t1 t2 (sl bits 12 20) (sl bits 20 28)) (sl bits 28 36)
+    else throw .keyError
+  if bitsToNat (sl bits 28 36) ≠ 0 then
+    let ok ← ofCrc (crc8Check false (sl bits 0 28) (bitsToNat (sl bits 28 36).reverse))
+    pure { o with ok := ok }
+  else pure o
 
 /-! ## PI header — CRC-CCITT, no sentinel -/
 
@@ -195,18 +200,24 @@ def piDec (bits : Bits) : Except IErr PiObj :=
   if bits.length = 0 then .error .valueError
   else piInit (bitsToBytes (bits.take (bits.length - 16))) (bitsToNat (bits.drop (bits.length - 16)))
 
-/-! ## Data header — CRC-CCITT over the *re-serialised* data bits -/
+/-! ## Data header — CRC-CCITT -/
 
-/-- end of `DataHeader.__init__`: `crcField` is `self.crc` (the received `bits[80:96]`), `reser` is
-`self.as_bits()[:-16]` of the object built from the parsed fields.  Returns (`crc_ok`, `self.crc`). -/
-def dhCheck (crcField reser : Bits) : Except IErr (Bool × Bits) := do
-  if crcField.length ≠ 16 ∨ bitsToNat crcField ≤ 0 then
-    let c ← ofCrc (Crc.crc16 (bitsToBytes reser) maskDataHeader)
-    if c ≥ 65536 then throw .overflowError     -- int2ba(…, length=16)
-    pure (true, natToBits 16 c)
-  else
-    let ok ← ofCrc (crc16Check (bitsToBytes reser) (bitsToNat crcField) maskDataHeader)
-    pure (ok, crcField)
+/-- `as_bits()` of a header the library built from fields with no CRC given: the constructor stores
+`int2ba(CRC16.calculate(as_bits()[:-16].tobytes(), CrcMasks.DataHeader), length=16)`;
+`body` = the 80 serialised field bits (the field codec is C03's subject) -/
+def dhEnc (body : Bits) : Except IErr Bits := do
+  let c ← ofCrc (Crc.crc16 (bitsToBytes body) maskDataHeader)
+  if c ≥ 65536 then throw .overflowError     -- int2ba(…, length=16)
+  pure (body ++ natToBits 16 c)
+
+/-- `crc_ok` after `DataHeader.from_bits(bits)`; `fieldsFail` = `fields_from_bits` (the field decoder
+and the constructor) raised.  With a zero (or short) CRC field the constructor regenerates the CRC and
+reports ok; otherwise the verdict is taken over the bits that were received. -/
+def dhDec (bits : Bits) (fieldsFail : Bool) : Except IErr Bool := do
+  if fieldsFail then throw .valueError
+  if bits.length ≥ 96 ∧ bitsToNat (sl bits 80 96) > 0 then
+    ofCrc (crc16Check (bitsToBytes (sl bits 0 80)) (bitsToNat (sl bits 80 96)) maskDataHeader)
+  else pure true
 
 /-! ## Confirmed rate-1/2, 3/4, 1 data blocks — CRC-9 -/
 
